@@ -84,8 +84,18 @@ def _subset(rng: random.Random, nodes: list[str], lo: int = 0) -> list[str]:
     return out
 
 
-def _container(rng: random.Random, xs: list[str], single_ok: bool = True) -> str:
-    opts = ["set", "frozenset", "list", "tuple"]
+def _container(rng: random.Random, xs: list[str], single_ok: bool = True, kind: str = "iterable") -> str:
+    """How the argument is passed -- only container types the operation's own annotation admits.
+
+    'iterable'   (Variable | Iterable[Variable]): anything, including a one-shot generator and a dict-keys view;
+    'collection' (Collection[Variable], get_markov_pillow): sized, re-iterable containers only;
+    'set'        (Variable | set[Variable], get_nodes_in_directed_paths; set[Intervention], intervene): real sets."""
+    if kind == "set":
+        opts = ["set"]
+    elif kind == "collection":
+        opts = ["set", "frozenset", "list", "tuple", "dictkeys"]
+    else:
+        opts = ["set", "frozenset", "list", "tuple", "set", "list", "gen", "dictkeys"]
     if single_ok and len(xs) == 1:
         opts += ["single", "single"]
     return rng.choice(opts)
@@ -125,7 +135,7 @@ def gen_surgery_op(rng: random.Random, target: list, m: MG, ops: tuple = SURGERY
             if not _is_plain(m) or not nodes:
                 continue
             S = _subset(rng, nodes, lo=1)
-            a = {"I": [[x, rng.random() < 0.5] for x in S], "c": rng.choice(["set", "frozenset", "list"])}
+            a = {"I": [[x, rng.random() < 0.5] for x in S], "c": "set"}
         elif op in (
             "subgraph",
             "remove_in_edges",
@@ -144,7 +154,7 @@ def gen_surgery_op(rng: random.Random, target: list, m: MG, ops: tuple = SURGERY
                 a["c"] = rng.choice(("set", "list", "tuple"))
         elif op == "get_markov_pillow":
             S = _subset(rng, nodes)
-            a = {"S": S, "c": _container(rng, S, single_ok=False)}
+            a = {"S": S, "c": _container(rng, S, single_ok=False, kind="collection")}
         elif op == "pre":
             S = _subset(rng, nodes)
             a = {"S": S, "c": _container(rng, S)}
@@ -158,7 +168,7 @@ def gen_surgery_op(rng: random.Random, target: list, m: MG, ops: tuple = SURGERY
                 S = S[:-1]
                 rest = [x for x in nodes if x not in S]
             T = _subset(rng, rest, lo=1)
-            a = {"S": S, "cS": _container(rng, S), "T": T, "cT": _container(rng, T)}
+            a = {"S": S, "cS": _container(rng, S, kind="set"), "T": T, "cT": _container(rng, T, kind="set")}
         return {"op": op, "t": target, "a": a}
     return None
 
@@ -361,6 +371,10 @@ def _mkarg(names: list[str], c: str) -> Any:
         return frozenset(vs)
     if c == "tuple":
         return tuple(vs)
+    if c == "gen":
+        return (v for v in vs)  # a one-shot iterable: the annotations say Iterable[Variable]
+    if c == "dictkeys":
+        return {v: None for v in vs}.keys()
     return list(vs)
 
 
